@@ -22,25 +22,49 @@ MANIFEST = {
             "amount; SINGLE without a matching output: zero hashOutputs, nothing of the outputs); the fork id folded into bits 8.. changes no flag; the "
             "serialiser of the legacy message is injective in (transaction, hash type); the closures of check_solution read the state only through "
             "the committed bytes, so equal committed bytes + equal input context => equal verdict of is_solution_ok (frame direction), with the "
-            "other inputs' unlocking data (all hash types) and the outputs under SIGHASH_NONE as proved instances; unknown spent output => False; the "
-            "per-call sighash cache is transparent; every answer of any history of validations and in-place changes on one object equals the fresh "
-            "computation; tampering with a committed field changes the digest/fails verification under explicit collision-resistance/unforgeability "
-            "hypotheses. Tied to the code by histories: sign with pycoin (P2PKH, P2PK, bare/P2SH/P2WSH multisig, P2WPKH, P2SH-P2WPKH; "
-            "BTC/LTC/GRS/BCH/BTG; six standard hash types), then sequences of single-field mutations interleaved with "
-            "is_solution_ok/bad_solution_count on the same object and on a fresh parse; the implementation's verdicts must equal what the hash types "
-            "dictate (model) and an independent reference, and each other.",
-    "note": "The script interpreter is a parameter of the model (C03 covers it). 'Committed change => invalid' rests on SHA-256 collision resistance and "
-            "ECDSA unforgeability, stated as hypotheses of C06_tamper_fails_partial (and, for reading the BIP143 part hashes back as lists, of "
-            "C06_committed_fields_bip143) and observed on every generated case.",
-    "technique": "Lean 4 proof (unique decoding / congruence over the sighash model) + differential histories on the real objects + reference oracle",
+            "other inputs' unlocking data (all hash types) and the outputs under SIGHASH_NONE as proved instances; an input moved to another position "
+            "commits to what stands at its NEW position (ANYONECANPAY: position free; legacy SINGLE: position and output; BIP143 SINGLE: the output "
+            "there); unknown spent output => False; is_solution_ok turns ScriptError and nothing else into False and nothing into True (except clauses "
+            "regenerated from the source); the per-call sighash cache is transparent; every answer of any history of validations and in-place changes "
+            "on one object equals the fresh computation. FAILS DIRECTION AT VERDICT LEVEL, through is_solution_ok of the instantiated interpreter "
+            "(stdVM: the VM model of C03 run with the class's DEFAULT_FLAGS, its signature check being checksig over the closures of check_solution: "
+            "key parse, lax DER, digest of the committed bytes, ECDSA): for P2PKH, P2PK, P2WPKH, P2SH-P2WPKH and m-of-n multisig bare / P2SH / P2WSH / "
+            "P2SH-P2WSH (every 1<=m<=n<=20, per-signature hash types): the input validates only if every signature verifies for the digest of the "
+            "current state (C06_valid_imp_verifies_*), and if it validated in s and the committed bytes of one signature differ in s' (by "
+            "C06_tampered_of_fields_legacy / _bip143_partial: a committed field differs) it does not validate in s' under exactly two named "
+            "cryptographic hypotheses, CollisionFree (digest function on the two committed byte strings) and NoForgery (the signature verifies for the "
+            "other digest under none of the keys) (C06_tamper_fails_<kind>); everything structural is proved (which bytes are digested, that the digest "
+            "feeds ECDSA-verify of the key in the script, that a refused check makes CHECKSIG push false - NULLFAIL is not a default flag - and the "
+            "script fail, that the multisig loop gives up when one signature matches no key, that P2SH / witness wrappers compare hashes first). THE "
+            "SCRIPT BEING SATISFIED: a change inside the hash push of a P2PKH / P2WPKH / P2SH / P2WSH spent script makes the input fail with no "
+            "cryptographic hypothesis (C06_spent_script_hash_fails_*); a spent script changed into one the same unlocking data still runs (P2PKH then "
+            "OP_NOP) fails because the script code is committed (C06_tamper_fails_p2pkh_script_nop). Tied to the code by histories: sign with pycoin "
+            "(P2PKH, P2PK, bare/P2SH/P2WSH multisig, P2WPKH, P2SH-P2WPKH; BTC/LTC/GRS/BCH/BTG; six standard hash types), then sequences of "
+            "single-field mutations interleaved with is_solution_ok/bad_solution_count on the same object and on a fresh parse, and a deterministic "
+            "table (c06_each): coin class x hash type x puzzle kind x one single-step mutation per family and position (version, lock time, each "
+            "input's outpoint hash / index / sequence, each output's amount / script, insertion / removal / reordering of inputs and of outputs, "
+            "unlocking data swapped between two inputs of the same kind, spent amount, the data push of the spent script, OP_NOP appended / "
+            "prepended to it, unspent set to None / dropped, values outside their wire range), the last input of every row having no output at its "
+            "position; the verdict of EVERY input is dictated by the model ('1', '0', 'E' = raises) and by an independent reference, and compared.",
+    "note": "The frame theorems keep the script interpreter abstract (C03 covers it); the fails direction instantiates it (Model/ValidateVM.lean) and "
+            "rests on SHA-256 collision freeness on the two named byte strings and on ECDSA non-forgeability for the two named digests, hypotheses of "
+            "C06_tamper_fails_<kind> (for reading the BIP143 part hashes back as lists: collision freeness on three more named pairs and a non-zero "
+            "output digest, C06_tampered_of_fields_bip143_partial) - facts the statements also need: the tampered transaction is not of the coinbase "
+            "shape (known finding coinbase-marker-input-valid) and the closure answers in the tampered state (otherwise is_solution_ok raises: 'E' in "
+            "the table). Spent-script changes no theorem speaks about (OP_NOP around a P2SH / witness template, arbitrary byte flips outside the data "
+            "pushes, unlocking data swapped between different kinds) stay undetermined ('?').",
+    "technique": "Lean 4 proof (unique decoding / congruence over the sighash model; symbolic evaluation of the consensus specification on the standard "
+                 "templates, carried to the VM model by C03M_verify_eq) + differential histories and a deterministic mutation table on the real objects + "
+                 "reference oracle",
 }
 RULE = ("ops c06_from_db / c06_set_unspents / c06_parse_unspents (ways the unspents get populated: databases lacking the tx, with too few outputs, "
-        "under the wrong hash; None entries, short lists; the include_unspents extension; scriptSig empty / OP_1 / genuine), c06_hist (signed transaction + mutation sequence; verdict vector after every step), c06_guards (missing_unspent / missing_unspents / the "
+        "under the wrong hash; None entries, short lists; the include_unspents extension; scriptSig empty / OP_1 / genuine), c06_hist (signed transaction + mutation sequence; verdict vector after every step), "
+        "c06_each (the table: signed transaction + single mutations each applied on its own; one verdict vector per mutation), c06_guards (missing_unspent / missing_unspents / the "
         "is_solution_ok guard on unspents patterns), c06_cache (one checksigs execution with repeated hash types); distinct = distinct op line; "
         "trivial = histories without any mutation")
-ASSUMPTIONS = ["SHA-256 collision resistance and ECDSA unforgeability (explicit hypotheses of C06_tamper_fails_partial; no generated tampering produced a valid signature)",
-               "the script interpreter is abstracted as a function of the TxContext and of the sighash closures (modelled under C03)",
-               "mutations keep every field in its wire range and do not create the null outpoint (coinbase marker)"]
+ASSUMPTIONS = ["SHA-256 collision freeness on the two committed byte strings and ECDSA non-forgeability for their digests (the two named hypotheses of C06_tamper_fails_<kind>; no generated tampering produced a valid signature)",
+               "the frame theorems abstract the script interpreter as a function of the TxContext and of the sighash closures; the tamper theorems instantiate it with the VM model of C03 and the consensus ECDSA / key / DER parsing of Spec/Secp256k1 (pycoin's own tied to them under C01/C03/C10)",
+               "mutations do not create the null outpoint (coinbase marker); a value outside its wire range makes the validation raise (dictated 'E'), never return True"]
 TRUSTED = ["harness/sighashlib.py: independent re-statement of the consensus sighash preimages used to decide what a mutation must do to a verdict"]
 
 
@@ -100,6 +124,7 @@ def apply_step(coin, tx, mp, cmd):
         x, y = tx.txs_in[i], tx.txs_in[j]
         x.script, y.script = y.script, x.script
         x.witness, y.witness = y.witness, x.witness
+        mp[i], mp[j] = mp[j], mp[i]      # the unlocking data (the signatures) change places
     elif k == "delout":
         del tx.txs_out[int(a[1])]
     elif k == "insout":
@@ -117,37 +142,149 @@ def apply_step(coin, tx, mp, cmd):
             tx.unspents[i] = T.TxOut(int(v), parse_bytes(sc))
     elif k == "usdrop":
         tx.unspents.pop()
+    elif k in ("uskey", "usnop", "uspre"):
+        i = int(a[1])
+        u = tx.unspents[i]
+        sc = bytes(u.script)
+        if k == "uskey":
+            sc = flip_data_bit(sc, int(a[2]))
+        elif k == "usnop":
+            sc = sc + b"\x61"
+        else:
+            sc = b"\x61" + sc
+        tx.unspents[i] = T.TxOut(u.coin_value, sc)
     else:
         raise ValueError("unknown mutation " + cmd)
 
 
-def undetermined(tx, mp, signed):
-    """positions whose own unlocking data or spent script differ from what was signed: their verdict depends on the
-    interpreter, not on a commitment"""
-    res = set()
-    for j, t in enumerate(tx.txs_in):
-        k = mp[j]
-        if k is None or j >= len(tx.unspents) or tx.unspents[j] is None:
-            continue
-        sol, wit, spent = signed[k]
-        if bytes(t.script) != sol or [bytes(w) for w in t.witness] != wit or bytes(tx.unspents[j].script) != spent:
-            res.add(j)
+# ---------------------------------------------------------------- standard spent scripts and their data pushes
+
+def spk_template(s: bytes):
+    """(kind, [(start, end)]): the template of a spent script and the byte ranges of its data pushes"""
+    n = len(s)
+    if n == 25 and s[:3] == b"\x76\xa9\x14" and s[23:] == b"\x88\xac":
+        return "p2pkh", [(3, 23)]
+    if n == 23 and s[:2] == b"\xa9\x14" and s[22:] == b"\x87":
+        return "p2sh", [(2, 22)]
+    if n == 22 and s[:2] == b"\x00\x14":
+        return "p2wpkh", [(2, 22)]
+    if n == 34 and s[:2] == b"\x00\x20":
+        return "p2wsh", [(2, 34)]
+    if ((n == 35 and s[0] == 33) or (n == 67 and s[0] == 65)) and s[-1] == 0xAC:
+        return "p2pk", [(1, n - 1)]
+    if n >= 3 and s[-1] == 0xAE and 0x51 <= s[0] <= 0x60 and 0x51 <= s[-2] <= 0x60:
+        pos, regions = 1, []
+        while pos < n - 2:
+            ln = s[pos]
+            if ln not in (33, 65) or pos + 1 + ln > n - 2:
+                return "other", []
+            regions.append((pos + 1, pos + 1 + ln))
+            pos += 1 + ln
+        if len(regions) == s[-2] - 0x50 and s[0] <= s[-2]:
+            return "multisig", regions
+    return "other", []
+
+
+def data_positions(s: bytes):
+    _k, regions = spk_template(s)
+    return [i for i in range(len(s)) if any(a <= i < b for a, b in regions)]
+
+
+def data_diff_only(old: bytes, new: bytes) -> bool:
+    """`new` has the template of `old` and differs from it, inside the data pushes only"""
+    if len(old) != len(new) or old == new:
+        return False
+    inside = set(data_positions(old))
+    return all(i in inside or old[i] == new[i] for i in range(len(old)))
+
+
+def flip_data_bit(s: bytes, bit: int) -> bytes:
+    pos = data_positions(s)
+    if not pos:
+        raise ValueError("no data push in this spent script")
+    b = bit % (8 * len(pos))
+    out = bytearray(s)
+    out[pos[b // 8]] ^= 1 << (b % 8)
+    return bytes(out)
+
+
+def signed_info(coin, f0, us0, meta):
+    """per signed input: (scriptSig, witness, spent script, [reference preimage per hash type], (witness closure?, code, hash types))"""
+    res = []
+    for k0 in range(len(f0[2])):
+        w, code, hts = meta[k0]
+        spent = None if (k0 >= len(us0) or us0[k0] is None) else us0[k0][1]
+        res.append((f0[2][k0][2], list(f0[2][k0][4]), spent, [ref_preimage(coin, f0, us0, w, code, k0, h) for h in hts], (w, code, hts)))
     return res
 
 
-def verdicts_of(tx, mask=()):
+def judge(coin, f, us, j, info, pres, code):
+    """'1' every signed preimage is what its signature commits to at position j now; '0' one differs or is refused; 'E' every
+    message computation raises (a field out of its wire range: is_solution_ok lets that escape); '?' some do, some do not"""
+    w, _code, hts = info
+    cur = [ref_preimage(coin, f, us, w, code, j, h) for h in hts]
+    if cur and all(c == "raises" for c in cur):
+        return "E"
+    if any(c == "raises" for c in cur):
+        return "?"
+    return "1" if all(p is not None and p != "refused" and p != "raises" and c == p for c, p in zip(cur, pres)) else "0"
+
+
+def expected(coin, signed, f, us, mp):
+    """what the hash types dictate for every position of the current state (fields f, unspents us, mp[j] = index of the
+    signed input whose unlocking data sits at j): '1' / '0', or '?' where no commitment decides"""
+    exp = []
+    for j in range(len(f[2])):
+        e = "0"
+        if mp[j] is not None and j < len(us) and us[j] is not None:
+            sol, wit, spent, pres, info = signed[mp[j]]
+            w, code, _hts = info
+            new = us[j][1]
+            if not (f[2][j][2] == sol and list(f[2][j][4]) == list(wit)) or spent is None:
+                e = "?"
+            elif new == spent:
+                e = judge(coin, f, us, j, info, pres, code)
+            else:
+                kind, _r = spk_template(spent)
+                data_only = data_diff_only(spent, new)
+                if kind in ("p2pkh", "p2sh", "p2wpkh", "p2wsh") and data_only:
+                    e = "0"       # the unlocking data no longer hashes to what the spent script says
+                elif (not w) and code == spent and kind in ("p2pkh", "p2pk", "multisig") and (
+                        data_only or new == spent + b"\x61" or new == b"\x61" + spent):
+                    # the spent script is the script code: the signatures commit to the new one
+                    e = judge(coin, f, us, j, info, pres, new)
+                    if e == "1" or (e == "E" and data_only):
+                        e = "?"       # (a changed key may not even parse: then the message is never asked for)
+                else:
+                    e = "?"
+        exp.append(e)
+    return exp
+
+
+def verdicts_of(tx, mask=(), count=True):
+    """verdict vector ('1' / '0' / 'E' = the validation raised; '?' at the masked positions, whatever happened there) and
+    bad_solution_count(): 'E' when it raised; '?' when only masked inputs could have decided it"""
     out = []
     for i in range(len(tx.txs_in)):
+        if i in mask:
+            try:
+                tx.is_solution_ok(i)
+            except Exception:  # noqa: BLE001
+                pass
+            out.append("?")
+            continue
         try:
             r = "1" if tx.is_solution_ok(i) else "0"
         except Exception:  # noqa: BLE001
             r = "E"
-        out.append("?" if (i in mask and r != "E") else r)
+        out.append(r)
+    if not count:
+        return "".join(out)
     try:
         bad = str(tx.bad_solution_count())
     except Exception:  # noqa: BLE001
         bad = "E"
-    if mask and bad != "E":
+    if "E" not in out and mask:
         bad = "?"
     return "".join(out) + "/" + bad
 
@@ -172,24 +309,40 @@ def impl(op: str) -> str:
                 trace, _vmap, _vals, outcome = S.observe_checksol(tx, i)
                 res.append("%d/%d" % (1 if (outcome == "ok" and tx.is_solution_ok(i)) else 0, 1 if trace else 0))
             return "ok " + ",".join(res)
-        if k == "c06_hist":
-            coin, f, us = a[1], parse_fields(a[2]), parse_us(a[3])
-            tx = build(coin, f, us)
-            mp = list(range(len(tx.txs_in)))
-            signed = [(bytes(t.script), [bytes(w) for w in t.witness], None if (k0 >= len(us) or us[k0] is None) else us[k0][1])
-                      for k0, t in enumerate(tx.txs_in)]
-            res = []
+        if k in ("c06_hist", "c06_each"):
+            coin, f0, us, meta = a[1], parse_fields(a[2]), parse_us(a[3]), parse_meta(a[4])
+            signed = signed_info(coin, f0, us, meta)
             steps = [] if a[5] == "~" else a[5].split(";")
-            for cmd in [None] + steps:
-                if cmd is not None:
+
+            def masked(tx, mp):
+                exp = expected(coin, signed, txlib.fields_of(tx), S.us_of(tx), mp)
+                return {j for j, e in enumerate(exp) if e == "?"}
+            res = []
+            if k == "c06_hist":
+                tx = build(coin, f0, us)
+                mp = list(range(len(tx.txs_in)))
+                for cmd in [None] + steps:
+                    if cmd is not None:
+                        apply_step(coin, tx, mp, cmd)
+                    mask = masked(tx, mp)
+                    v = verdicts_of(tx, mask)
+                    v2 = verdicts_of(tx, mask)                       # asked twice on the same object
+                    try:
+                        fresh = fresh_copy(coin, tx)                 # and on a fresh parse of its bytes
+                    except Exception:  # noqa: BLE001  (a field out of its wire range: there are no bytes)
+                        fresh = tx
+                    v3 = verdicts_of(fresh, mask)
+                    if not (v == v2 == v3):
+                        v += "!STALE(%s,%s)" % (v2, v3)
+                    res.append(v)
+            else:
+                base = build(coin, f0, us)
+                res.append(verdicts_of(base, masked(base, list(range(len(base.txs_in))))))
+                for cmd in steps:
+                    tx = build(coin, f0, us)
+                    mp = list(range(len(tx.txs_in)))
                     apply_step(coin, tx, mp, cmd)
-                mask = undetermined(tx, mp, signed)
-                v = verdicts_of(tx, mask)
-                v2 = verdicts_of(tx, mask)                       # asked twice on the same object
-                v3 = verdicts_of(fresh_copy(coin, tx), mask)     # and on a fresh parse of its bytes
-                if not (v == v2 == v3):
-                    v += "!STALE(%s,%s)" % (v2, v3)
-                res.append(v)
+                    res.append(verdicts_of(tx, masked(tx, mp), count=False))
             return "ok " + ";".join(res)
         if k == "c06_guards":
             coin, f, us = a[1], parse_fields(a[2]), parse_us(a[3])
@@ -374,7 +527,16 @@ def parse_meta(s):
 
 
 def ref_preimage(coin, f, us, witness, code, idx, ht):
-    """the consensus preimage a signature (hash type ht) on input idx commits to; 'refused' / 'bug' / bytes / None"""
+    """the consensus preimage a signature (hash type ht) on input idx commits to; 'refused' / 'bug' / bytes / None;
+    'raises' when a field that goes into it does not fit its wire format (no such message exists)"""
+    import struct
+    try:
+        return _ref_preimage(coin, f, us, witness, code, idx, ht)
+    except (struct.error, OverflowError):
+        return "raises"
+
+
+def _ref_preimage(coin, f, us, witness, code, idx, ht):
     forkid = coin in ("bch", "btg")
     if witness or forkid:
         if idx >= len(f[2]) or idx >= len(us) or us[idx] is None:
@@ -403,36 +565,31 @@ def oracle(op: str, out: str):
             if cell != "1/1":
                 return "input %d (%s) of a transaction signed by the library does not validate" % (i, kd)
         return None
-    if k == "c06_hist":
+    if k in ("c06_hist", "c06_each"):
         if not out.startswith("ok"):
             return "validation history raised " + out
         if "STALE" in out:
             return "repeating validation on the same object, or on a fresh object built from its bytes, gives a different verdict"
         coin, f0, us0, meta = a[1], parse_fields(a[2]), parse_us(a[3]), parse_meta(a[4])
         got = out[3:].split(";")
+        steps = [] if a[5] == "~" else a[5].split(";")
+        signed = signed_info(coin, f0, us0, meta)
         tx = build(coin, f0, us0)
         mp = list(range(len(tx.txs_in)))
-        steps = [] if a[5] == "~" else a[5].split(";")
-        signed = []
-        for k0 in range(len(f0[2])):
-            w, code, hts = meta[k0]
-            signed.append((f0[2][k0][2], f0[2][k0][4], None if us0[k0] is None else us0[k0][1], [ref_preimage(coin, f0, us0, w, code, k0, h) for h in hts]))
         for n, cmd in enumerate([None] + steps):
             if cmd is not None:
+                if k == "c06_each":
+                    tx = build(coin, f0, us0)
+                    mp = list(range(len(tx.txs_in)))
                 apply_step(coin, tx, mp, cmd)
             f, us = txlib.fields_of(tx), S.us_of(tx)
-            exp = []
-            for j in range(len(f[2])):
-                e = "0"
-                if mp[j] is not None and j < len(us) and us[j] is not None:
-                    sol, wit, spent, pres = signed[mp[j]]
-                    w, code, hts = meta[mp[j]]
-                    if not (f[2][j][2] == sol and list(f[2][j][4]) == list(wit) and us[j][1] == spent):
-                        e = "?"
-                    elif all(p is not None and p != "refused" and ref_preimage(coin, f, us, w, code, j, h) == p for h, p in zip(hts, pres)):
-                        e = "1"
-                exp.append(e)
-            want = "".join(exp) + "/" + ("?" if "?" in exp else str(exp.count("0")))
+            exp = expected(coin, signed, f, us, mp)
+            want = "".join(exp)
+            if k == "c06_hist" or cmd is None:
+                cb = tx.is_coinbase()
+                want += "/" + (("0" if cb else "E") if "E" in exp else "?" if "?" in exp else "0" if cb else str(exp.count("0")))
+            if n >= len(got):
+                return "validation history returned %d answers for %d states" % (len(got), len(steps) + 1)
             if got[n] != want:
                 vec = got[n].split("/")[0]
                 for j, (g, e) in enumerate(zip(vec, exp)):
@@ -442,6 +599,8 @@ def oracle(op: str, out: str):
                             return "input %d is reported valid although its spent output is unknown (after step %d: %s)" % (j, n, cmd)
                         if g == "1":
                             return "input %d still validates after a change its hash type commits to (step %d: %s)" % (j, n, cmd)
+                        if g == "0" and e == "E":
+                            return "validating input %d returned False although its signed message cannot even be formed (step %d: %s)" % (j, n, cmd)
                         if g == "0":
                             return "input %d fails validation after a change outside what its hash type commits to (step %d: %s)" % (j, n, cmd)
                         return "validating input %d raised instead of returning a verdict (step %d: %s)" % (j, n, cmd)
@@ -506,7 +665,7 @@ def oracle(op: str, out: str):
 
 def trivial(op: str) -> bool:
     a = op.split(" ")
-    return a[0] == "c06_hist" and a[5] == "~"
+    return a[0] in ("c06_hist", "c06_each") and a[5] == "~"
 
 
 def neighbours(op, rng):
@@ -515,19 +674,26 @@ def neighbours(op, rng):
         steps = a[5].split(";")
         for n in range(1, len(steps)):
             yield " ".join(a[:5] + [";".join(steps[:n])])
+    if a[0] == "c06_each" and a[5] != "~":
+        # every step of the table on its own, as a one-step history (with the repeat / fresh-object observations)
+        for cmd in a[5].split(";"):
+            yield " ".join(["c06_hist"] + a[1:5] + [cmd])
 
 
 def _known_coinbase(v):
     """the history edits the only input into the null outpoint: the transaction is then a 'coinbase' for pycoin"""
     op = str(v.get("input", ""))
     a = op.split(" ")
-    if a[0] != "c06_hist" or a[5] == "~":
+    if a[0] not in ("c06_hist", "c06_each") or a[5] == "~":
         return False
     try:
         coin, f0, us0 = a[1], parse_fields(a[2]), parse_us(a[3])
         tx = build(coin, f0, us0)
         mp = list(range(len(tx.txs_in)))
         for cmd in a[5].split(";"):
+            if a[0] == "c06_each":
+                tx = build(coin, f0, us0)
+                mp = list(range(len(tx.txs_in)))
             apply_step(coin, tx, mp, cmd)
             if tx.is_coinbase():
                 return True
@@ -561,7 +727,7 @@ def rand_step(rng, coin, tx, orig):
     """one mutation command for the current state (`orig` = fields of the signed state, to build reverting steps)"""
     n_in, n_out = len(tx.txs_in), len(tx.txs_out)
     fam = rng.choice(["ver", "lock", "seq", "seq", "pidx", "phash", "sol", "wit", "oval", "oval", "oscr", "delin", "insin", "swapin", "swapsol",
-                      "delout", "insout", "swapout", "us_none", "us_val", "us_scr", "usdrop", "revert", "nop"])
+                      "delout", "insout", "swapout", "us_none", "us_val", "us_scr", "usdrop", "revert", "nop", "uskey", "uskey", "usnop", "uspre", "range"])
     i = rng.randrange(n_in) if n_in else 0
     j = rng.randrange(n_out) if n_out else 0
     if fam == "ver":
@@ -635,6 +801,13 @@ def rand_step(rng, coin, tx, orig):
         return "us:%d:%d,%s" % (i, u.coin_value, hx(bytes(s)))
     if fam == "usdrop" and len(tx.unspents) > 0:
         return "usdrop"
+    if fam in ("uskey", "usnop", "uspre") and i < len(tx.unspents) and tx.unspents[i] is not None:
+        if fam == "uskey":
+            return "uskey:%d:%d" % (i, rng.randrange(520)) if data_positions(bytes(tx.unspents[i].script)) else "nop"
+        return "%s:%d" % (fam, i)
+    if fam == "range":
+        return rng.choice(["ver:4294967296", "ver:-1", "lock:4294967296", "seq:%d:-1" % i, "pidx:%d:4294967296" % i, "oval:%d:-1" % j,
+                           "oval:%d:18446744073709551616" % j]) if (n_in and n_out) else "nop"
     if fam == "revert":
         # put one field back to its signed value
         v, lock, ins, outs = orig
@@ -649,6 +822,38 @@ def rand_step(rng, coin, tx, orig):
             return "seq:%d:%d" % (i, ins[i][3])
     return "nop"
 
+
+def table_steps(tx):
+    """one single-field mutation per family and position: the deterministic table of the property's first sentence"""
+    n_in, n_out = len(tx.txs_in), len(tx.txs_out)
+    st = ["ver:%d" % (tx.version ^ 2), "lock:%d" % (tx.lock_time ^ 0x10000)]
+    for i, t in enumerate(tx.txs_in):
+        h = bytearray(t.previous_hash)
+        h[(5 * i + 1) % 32] ^= 0x40
+        st += ["phash:%d:%s" % (i, hx(bytes(h))), "pidx:%d:%d" % (i, t.previous_index ^ 4), "seq:%d:%d" % (i, t.sequence ^ 0x100)]
+    for j, o in enumerate(tx.txs_out):
+        sc = bytearray(o.script)
+        sc[-1] ^= 1
+        st += ["oval:%d:%d" % (j, o.coin_value + 1), "oscr:%d:%s" % (j, hx(bytes(sc)))]
+    new_in = "%s,1,-,4294967295,~" % ("ee" * 32)
+    st += ["insin:%d:%s" % (p, new_in) for p in sorted({0, n_in // 2, n_in})]
+    st += ["delin:%d" % i for i in range(n_in)]
+    st += ["swapin:%d:%d" % p for p in sorted({(0, 1), (1, n_in - 1), (n_in - 2, n_in - 1)}) if p[0] != p[1]]
+    st += ["insout:%d:777,51" % p for p in sorted({0, n_out})]
+    st += ["delout:%d" % j for j in range(n_out)]
+    st += ["swapout:%d:%d" % p for p in sorted({(0, 1), (n_out - 2, n_out - 1)}) if p[0] != p[1] and p[0] >= 0]
+    st += ["swapsol:%d:%d" % p for p in sorted({(0, 1), (n_in - 2, n_in - 1)}) if p[0] != p[1]]
+    for i, u in enumerate(tx.unspents):
+        st += ["us:%d:%d,%s" % (i, u.coin_value + 1, hx(u.script)), "uskey:%d:%d" % (i, 8 * i + 3), "usnop:%d" % i, "uspre:%d" % i,
+               "us:%d:none" % i]
+    st.append("usdrop")
+    # values that do not fit their wire format: no signed message exists, the validation raises (never True)
+    st += ["ver:4294967296", "lock:-1", "seq:%d:4294967296" % (n_in - 1), "pidx:0:-1", "oval:0:-1", "oval:%d:18446744073709551616" % (n_out - 1),
+           "us:1:-1,%s" % hx(tx.unspents[1].script)]
+    return st
+
+
+TABLE_GROUPS = [["p2pkh", "p2pkh_u", "p2pk", "ms"], ["p2sh_ms", "p2wpkh", "p2wsh_ms", "p2sh_p2wpkh"]]
 
 KIND_SETS = [["p2pkh"], ["p2pkh", "p2pk"], ["p2pkh", "p2sh_ms", "p2pkh_u"], ["ms", "p2pkh"], ["p2wpkh"], ["p2wpkh", "p2pkh"],
              ["p2wsh_ms", "p2sh_p2wpkh", "p2pkh"], ["p2pkh", "p2wpkh", "p2sh_ms", "p2wsh_ms"]]
@@ -722,8 +927,26 @@ def gen(ctx, emit):
         names = sorted(n for n, _s, _e in S.puzzles(coin))
         for ht in (1, 3, 0x82):
             emit("c06_sigchecked %s %s %d" % (coin, ",".join(names), ht), "signature-checked")
-    # ---- histories
     HTS = [1, 2, 3, 0x81, 0x82, 0x83]
+    # ---- the table: every coin class (quick: Bitcoin, one fork-id class, Groestlcoin) x every hash type x every puzzle kind (two
+    # transactions of four inputs and three outputs: the last input has no output at its position) x one single-step mutation
+    # per family and position, each applied to the signed state on its own; the verdict of EVERY input is dictated
+    for coin in (COINS if ctx.thorough else [c for c in COINS if c in ("btc", "bch", "grs")]):
+        avail = {n for n, _s, _e in S.puzzles(coin)}
+        for ht in HTS:
+            for grp in TABLE_GROUPS:
+                ks = [k0 for k0 in grp if k0 in avail]
+                if len(ks) < 2:
+                    continue
+                tx = S.sign_tx(coin, ks, ht, n_out=len(ks) - 1, version=1, lock_time=0, sequences=[0xFFFFFFFE] * len(ks))
+                if tx.bad_solution_count() != 0:
+                    ctx.note("pycoin's own signature does not validate: %s %s 0x%x (table row skipped)" % (coin, ks, ht))
+                    continue
+                meta = meta_of(coin, tx)
+                if meta is None:
+                    continue
+                emit("c06_each %s %s %s %s %s" % (coin, txlib.dump_tx(tx), show_us(S.us_of(tx)), meta, ";".join(table_steps(tx))), "table")
+    # ---- histories
     per = ctx.n(2, 20)
     for coin in COINS:
         avail = {n for n, _s, _e in S.puzzles(coin)}
